@@ -88,6 +88,13 @@ def scenarios(rng, quick):
             for handler in ("none", "catch"):
                 out.append(map_scn(3, bad, mc, handler, "a", [30, 10, 20]))
     out += nested_scn()
+    # the fan-out failure scenarios of the shared engine corpus (a branch in its own Catch's recovery path while a sibling
+    # fails; a handled failure while a nested fan-out is still running; queued nested events; Fail state vs Wait)
+    for sc in engine_props.corpus(rng, quick):
+        if sc.name.startswith(("branch-catch-vs", "handled-fail-vs-nested", "par-fail-vs", "par-failstate", "branch-catch-then")) \
+                and not sc.name.endswith("-ttl"):
+            sc.extra.setdefault("errors", ["EA", "EB", "E"])
+            out.append(sc)
     return out
 
 
